@@ -208,11 +208,15 @@ class AMachine(Machine):
                     run.run()
                 ticks = ref.ticks
                 self.judge_end(run, ref, log, probes)
-                finals[backend] = (run.final_digest, [e for e in run.events if e[2] == "hit"])
+                finals[backend] = (run.final_digest, [e for e in run.events if e[2] == "hit"],
+                                   [(e[0], e[3]) for e in run.events if e[2] == "mbp_hit"])
                 log.add("final", backend, run.final_digest, hex(run.final_pc), ref.ticks)
             if len(finals) == 2:
                 probes["both_backends_compared"] = probes.get("both_backends_compared", 0) + 1
-                (da, ha), (db, hb) = finals["python"], finals["gcc"]
+                (da, ha, ma), (db, hb, mb) = finals["python"], finals["gcc"]
+                if ma != mb:
+                    raise Violation(self.pid + "/backends-disagree", "memory-breakpoint hits differ: python at (tick, pc) %s, gcc at %s"
+                                    % ([(t, hex(pc)) for t, pc in ma][:4], [(t, hex(pc)) for t, pc in mb][:4]), {"what": "membp"})
                 if da != db:
                     raise Violation(self.pid + "/backends-disagree", "final state digests differ between python and gcc", {"what": "final"})
                 if [(h[0], h[3], h[4]) for h in ha] != [(h[0], h[3], h[4]) for h in hb]:
